@@ -297,6 +297,7 @@ def check(pid, tier='quick', seed=0, shared=None, write_evidence=True, quiet=Fal
                               'smt_time_us': tm and tm.get('time_micros'), 'rlimit': tm and tm.get('rlimit')})
             failed_labels = {}
             body_fail = []
+            ghost_fail = []   # unlabelled proof steps (hints / invariants inserted by the contract) that no longer hold
             for f in fl:
                 if f['where'] == 'ensures':
                     if f['label'] is None:
@@ -308,16 +309,35 @@ def check(pid, tier='quick', seed=0, shared=None, write_evidence=True, quiet=Fal
                     if f['label'] is not None:
                         for fl_ in f.get('labels') or [f['label']]:
                             failed_labels.setdefault(fl_, []).append(f)
+                    elif f.get('ghost'):
+                        ghost_fail.append(f)
                     else:
                         body_fail.append(f)
+            if ghost_fail:
+                props_here = {label_prop(l) for l in labs} - {NOPANIC_PROP, None}
+                if len(props_here) == 1 and pid in props_here:
+                    # every clause of this function belongs to one property: its proof is that property's obligation
+                    lab_ps = f'{pid}.{fn["name"].split("::")[-1]}-proof-step'
+                    ob = {'id': f'{wname}:{fq}:{lab_ps}', 'label': lab_ps, 'function': fq, 'discharged': False}
+                    obligations.append(ob)
+                    violations.append({'obligation': ob['id'], 'label': lab_ps, 'function': fq, 'world': wname,
+                                       'file': fn['file'], 'src_span': fn['src_span'],
+                                       'verus': [x['rendered'] for x in ghost_fail]})
+                else:
+                    # Verus assumes a failed assertion afterwards, so everything proved after it is unreliable: the
+                    # function's remaining obligations are undecided (a labelled obligation that failed is still reported)
+                    inconclusive.append(f'{wname}: a proof step of {fq} no longer holds (unit.rs line {ghost_fail[0]["line"]}: '
+                                        f'{ghost_fail[0]["message"]}); its obligations that did not fail are undecided')
             for l in mine:
+                if ghost_fail and l not in failed_labels:
+                    continue
                 ob = {'id': f'{wname}:{fq}:{l}', 'label': l, 'function': fq, 'discharged': l not in failed_labels}
                 obligations.append(ob)
                 if l in failed_labels:
                     violations.append({'obligation': ob['id'], 'label': l, 'function': fq, 'world': wname,
                                        'file': fn['file'], 'src_span': fn['src_span'],
                                        'verus': [x['rendered'] for x in failed_labels[l]]})
-            if nopanic:
+            if nopanic and not (ghost_fail and not body_fail):
                 ob = {'id': f'{wname}:{fq}::nopanic', 'label': f'{fq}::nopanic', 'function': fq, 'discharged': not body_fail}
                 obligations.append(ob)
                 if body_fail:
